@@ -672,10 +672,22 @@ def run(ctx):
         "go-diskqueue v1.1.0 (FIFO; Empty removes every file; Delete after Empty leaves none), container/heap for deferredPQ",
     ]
     ctx.assumptions += [
-        "deadlock freedom is proved for lock-only cycles (acyclic lock-nesting relation); blocking on unbuffered Go "
+        "deadlock freedom: lock_only_deadlock_free is a graph fact about the regenerated lock-nesting relation (audit B22); it speaks "
+        "about the tree through lock_order_acyclic, must_hold_edges (the nestings the models rely on are present), "
+        "unresolved_calls_pinned (8 call sites through function-typed fields, not followed, reviewed by hand) and no_recursive_lock; "
+        "only lock-only cycles are excluded; blocking on unbuffered Go "
         "channels (channelUpdateChan, pauseChan, notifyChan, diskqueue request channels) is outside the lemma — "
         "the harness watches liveness instead (every operation answers within its deadline)",
-        "micro-step model: one live *Message object per message id (ids are unique, C12); message ids are inputs",
+        "micro-step model: one live *Message object per message id (ids are unique, C12: `put o` is disabled while a container "
+        "or a parked operation still refers to id o); message ids are inputs",
+        "index_ok_every_schedule / map_heap_agree_at_quiescence / map_heap_agree_in_progress are theorems about the committed shape "
+        "fixed + scanAtomic + pushAtomic (F7, F16, F48), which the ties remove_guard_known, scan_shape_known, push_shape_known demand "
+        "of the tree (map_heap_agree_tree); the three counter-examples of the pre-F48 shape stay as theorems about that shape",
+        "empty_discards_held_fixed is a theorem about the tree WITH fixes/F27 (parameter ansLock, tie answers_channel_lock_shape; "
+        "the default run selects ansLock from the tree) under the hypothesis that no timeout scan holds a message when Empty begins "
+        "(forced: empty_discards_held_scan_false; open finding empty-races-timeout-scan-message-survives)",
+        "configuration: --sync-every >= 1 (E9 CfgOk.sync is an assumption on the configuration: nsqd does not validate the option; "
+        "with 0 the open finding sync-every-zero-delete-leaves-meta-file applies; fixes/F25 is a proposal only)",
         "no_zombie_fixed (topic deletion vs SUB / re-creation / second deletion) is a theorem about the tree with "
         "fixes/F19 + F20 (selected by the ties sub_guard_shape / delete_topic_shape); without them DeleteDisconnectsFull "
         "is false (delete_disconnects_full_false, witnessDouble_leaks) and both witnesses are replayed as known findings; "
